@@ -538,6 +538,69 @@ func structuredSpecs(role, proto string) []spec {
 	return out
 }
 
+// bigSpecs: structurally valid frames whose strings are larger than the
+// buffers on the way (the 1 MiB bounded reply buffer of the NATS server, the
+// NATS message size): unknown method names of 600 and 900 KiB (the
+// UNKNOWN_METHOD reply carries the name twice), huge header values, huge
+// string / binary arguments and results.
+func bigSpecs(role string) []spec {
+	big := func(n int) string { return strings.Repeat("n", n) }
+	mk := func(base int, f func(role, proto string, b baseFrame, opid string) []byte) spec {
+		return spec{class: "bigstr", base: base, rebuild: f}
+	}
+	method := func(n int) spec {
+		return mk(0, func(role, proto string, b baseFrame, opid string) []byte {
+			return buildFrame(proto, headerPairs(role, opid), big(n), b.msgType, b.body).b
+		})
+	}
+	header := func(name string, n int) spec {
+		return mk(0, func(role, proto string, b baseFrame, opid string) []byte {
+			return buildFrame(proto, setPair(headerPairs(role, opid), name, big(n)), b.method, b.msgType, b.body).b
+		})
+	}
+	body := func(base int, method string, t thrift.TMessageType, st func() thrift.TStruct) spec {
+		return mk(base, func(role, proto string, b baseFrame, opid string) []byte {
+			return buildFrame(proto, headerPairs(role, opid), method, t, st()).b
+		})
+	}
+	out := []spec{method(600 << 10), method(900 << 10), header("_cid", 600<<10), header("x-big", 900<<10)}
+	bigBytes := func(n int) []byte { return []byte(big(n)) }
+	switch role {
+	case roleReq:
+		out = append(out,
+			body(1, "echo", thrift.CALL, func() thrift.TStruct { return &mainsvc.FooEchoArgs{P: payloadLast(), Tag: big(600 << 10)} }),
+			body(1, "echo", thrift.CALL, func() thrift.TStruct {
+				return &mainsvc.FooEchoArgs{P: &mainsvc.Payload{First: &mainsvc.BigFirst{Big: big(900 << 10), N: 1}}, Tag: "t"}
+			}),
+			body(5, "blob", thrift.CALL, func() thrift.TStruct { return &mainsvc.FooBlobArgs{B: bigBytes(1040000)} }),
+			body(8, "echoThing", thrift.CALL, func() thrift.TStruct {
+				return &base.BaseFooEchoThingArgs{T: &base.Thing{AnID: 7, AString: big(900 << 10)}}
+			}),
+			body(0, big(600<<10), thrift.ONEWAY, func() thrift.TStruct { return &mainsvc.FooFireArgs{S: "s"} }),
+		)
+	case roleResp:
+		out = append(out,
+			body(1, "echo", thrift.REPLY, func() thrift.TStruct {
+				return &mainsvc.FooEchoResult{Success: &mainsvc.Payload{Last: &mainsvc.BigLast{N: 1, Nums: []int64{1, 2, 3}, Big: big(900 << 10)}}}
+			}),
+			body(4, "blob", thrift.REPLY, func() thrift.TStruct { return &mainsvc.FooBlobResult{Success: bigBytes(1040000)} }),
+			body(0, "add", thrift.EXCEPTION, func() thrift.TStruct {
+				return thrift.NewTApplicationException(thrift.UNKNOWN_METHOD, big(900<<10))
+			}),
+		)
+	default:
+		out = append(out,
+			body(0, "Sent", thrift.CALL, func() thrift.TStruct {
+				return &mainsvc.Payload{First: &mainsvc.BigFirst{Big: big(900 << 10), N: 1}}
+			}),
+			body(0, "Sent", thrift.CALL, func() thrift.TStruct {
+				return &mainsvc.Payload{Mid: &mainsvc.BigMid{N: 1, Big: bigBytes(1040000), Tail: "t"}}
+			}),
+		)
+	}
+	return out
+}
+
 // prngSpecs builds class (iii).
 func prngSpecs(role string, rng *rand.Rand, nFlip, nSplice int) []spec {
 	nb := len(bases(role))
@@ -698,6 +761,7 @@ func specList(entry, proto string, thorough bool, rng *rand.Rand) []spec {
 	} else {
 		out = append(out, st...)
 	}
+	out = append(out, bigSpecs(role)...)
 	rest := total - len(out)
 	if rest < 300 {
 		rest = 300
